@@ -30,7 +30,7 @@ mut("c10_decode_clobbers_on_failure", "element.go", "\ty, isSquare := field.New(
 mut("c10_negate_copy_shares", "element.go", "func (e *Element) Copy() *Element {\n\treturn e.copy()", "func (e *Element) Copy() *Element {\n\tif e.IsIdentity() {\n\t\treturn e\n\t}\n\n\treturn e.copy()", ["C10"], "Copy of the identity returns the receiver")
 mut("c10_invert_zero_one", "scalar.go", "func (s *Scalar) Invert() *Scalar {\n\tscalar.Invert(&s.S, s.S)", "func (s *Scalar) Invert() *Scalar {\n\tif s.IsZero() {\n\t\treturn s.One()\n\t}\n\tscalar.Invert(&s.S, s.S)", ["C10"], "Invert(0) = 1")
 mut("c10_h2g_oversize_dst_off_by_one", "xmd.go", "if len(dst) > dstMaxLength {", "if len(dst) > dstMaxLength+1 {", ["C10"], "a 256-byte DST is not hashed down (length byte wraps to 0)")
-mut("c10_sub_leaves_unnormalised_argument_negated", "element.go", "q := element.copy().negate()\n\n\treturn e.add(q)", "q := element.copy().negate()\n\tif element != e && element.z.Equals(field.New().One()) != 1 {\n\t\telement.negate()\n\t}\n\n\treturn e.add(q)", ["C10", "C16"],
+mut("c10_sub_leaves_unnormalised_argument_negated", "element.go", "q := element.copy().negate()\n\n\treturn e.add(q)", "q := element.copy().negate()\n\tif element != e && element.z.Equals(field.New().One()) != 1 {\n\t\telement.negate()\n\t}\n\n\treturn e.add(q)", ["C10", "C15", "C16"],
     "Subtract leaves its argument negated when the argument is not normalised (Z != 1)")
 mut("c16_sub_negate_restore", "element.go", "q := element.copy().negate()\n\n\treturn e.add(q)", "if element != e {\n\t\telement.negate()\n\t\te.add(element)\n\t\telement.negate()\n\n\t\treturn e\n\t}\n\n\tq := element.copy().negate()\n\n\treturn e.add(q)", ["C16"],
     "Subtract negates the argument in place and restores it: sequentially invisible, a store to a shared argument")
